@@ -139,6 +139,7 @@ impl EnvEngine {
                 ast::PreKind::OkExec(_) => "pre_ok_exec",
                 ast::PreKind::SiblingCtx(_) => "pre_sibling_context_diverged_and_executed",
                 ast::PreKind::SiblingBind(_) => "pre_sibling_bindings_diverged_and_executed",
+                ast::PreKind::StaleDirect(_) | ast::PreKind::StaleJson(_) => "pre_stale_bindings_replaced",
             };
             *fired.entry(k.into()).or_insert(0) += 1;
         }
